@@ -54,7 +54,7 @@ def check_artefact(ctx, a, stats):
     if eg.signed_area([eg.fr(p) for p in body]) <= 0:
         V("closed_wall is not anticlockwise", {})
     inp = [tuple(map(float, p)) for p in wall_in]
-    if a.config.get("via") == "gfile":
+    if a.config.get("via") == "gfile" and a.config.get("family") != "X":
         # the wall went through the ten-significant-digit geqdsk text
         inp = [(float("%.9E" % r), float("%.9E" % z)) for r, z in inp]
     cand = [inp, inp[::-1]]
